@@ -324,6 +324,29 @@ func (t *tailBuf) Write(p []byte) (int, error) {
 	return len(p), nil
 }
 
+// markWriter notes whether mark ever appeared at the start of a line of what was written to it.
+type markWriter struct {
+	mark []byte
+	line []byte
+	seen bool
+}
+
+func (w *markWriter) Write(p []byte) (int, error) {
+	for _, b := range p {
+		if b == '\n' {
+			w.line = w.line[:0]
+			continue
+		}
+		if len(w.line) < len(w.mark) {
+			w.line = append(w.line, b)
+			if len(w.line) == len(w.mark) && string(w.line) == string(w.mark) {
+				w.seen = true
+			}
+		}
+	}
+	return len(p), nil
+}
+
 // supervise runs the check in a child process. Many checks drive mosproxy packages inside the
 // harness process; a panic or fatal error there (a goroutine of the code under test that nobody
 // recovers) would otherwise end the run without a verdict. When the child dies with a Go crash
@@ -338,7 +361,7 @@ func supervise() int {
 	cmd := exec.Command(exe, os.Args[1:]...)
 	cmd.Env = append(os.Environ(), "VERIF_SUPERVISED=1")
 	cmd.Stdin = os.Stdin
-	outTail := &tailBuf{max: 1 << 16}
+	outTail := &markWriter{mark: []byte("check " + id + " tier=")}
 	errTail := &tailBuf{max: 1 << 18}
 	cmd.Stdout = io.MultiWriter(os.Stdout, outTail)
 	cmd.Stderr = io.MultiWriter(os.Stderr, errTail)
@@ -351,8 +374,8 @@ func supervise() int {
 			code = ee.ExitCode()
 		}
 	}
-	finished := strings.Contains(string(outTail.b), "\ncheck "+id+" tier=") || strings.HasPrefix(string(outTail.b), "check "+id+" tier=")
-	if finished || code == 0 {
+	if outTail.seen || code == 0 { // the child printed its verdict line (however much it printed after it)
+
 		return code
 	}
 	crash := string(errTail.b)
